@@ -2,9 +2,9 @@ package props
 
 import (
 	"fmt"
+	"golang.org/x/tools/go/ssa"
 	"jrpcvet/internal/chk"
 	"jrpcvet/internal/ir"
-	"golang.org/x/tools/go/ssa"
 )
 
 func DebugReader(c *chk.Ctx) {
